@@ -124,7 +124,7 @@ theorem offsC_spec (z : Zone) (wf : WF z) (c : ZRng) (hc : CacheOK z c) (t : Int
     ∃ c', offsC z c t = some (off z t, c') ∧ CacheOK z c' := by
   unfold offsC
   simp only []
-  rw [wrap32_of_I32 t ht, wf.2.2.2.2.2.2]
+  rw [clamp32_of_I32 t ht, wf.2.2.2.2.2.2]
   simp only [Bool.false_eq_true, if_false]
   by_cases hit : t ≥ c.prev ∧ t < c.next
   · rw [if_pos hit]
